@@ -140,7 +140,7 @@ def comprehension_over_reclist(eng, comp_node, st):
         return None
     rl = eng.ev1(comp.iter, st)
     if not isinstance(rl, VRecList):
-        return None
+        return comprehension_over_seq(eng, comp_node, comp, rl, st)
     var = smt.bound(eng.ctx, 'ix', INT)
     s2 = st.copy()
     fid = s2.new_frame(s2.cur)
@@ -165,3 +165,39 @@ def comprehension_over_reclist(eng, comp_node, st):
     if rl.n.s == rl.full_n.s:
         return VSeq(L, ty)
     return VSeq(Substr(L, IntV(0), rl.n), ty)
+
+
+def comprehension_over_seq(eng, comp_node, comp, itv, st):
+    """``[elt for x in xs]`` for a sequence of primitives xs: the sequence L with len(L) == len(xs) and
+    L[ix] == elt(xs[ix]) (attached as axioms of the constant L; cached per (xs, elt))."""
+    from .smt import ForAll, Implies, Le, Lt
+    try:
+        seq, elem = eng.seq_of(itv, st)
+    except Undecided:
+        return None
+    var = smt.bound(eng.ctx, 'ix', INT)
+    s2 = st.copy()
+    fid = s2.new_frame(s2.cur)
+    s2.cur = fid
+    s2.bind(comp.target.id, wrap(At(seq, var), elem))
+    e = eng.ev1(comp_node.elt, s2)
+    if isinstance(e, (VInt, VStr, VBool)):
+        t, ty = e.t, e.ty
+    else:
+        t, ty = eng.truthy(e, s2), ('bool',)
+    cache = eng.__dict__.setdefault('_comp_cache', {})
+    key = (seq.s, t.s.replace(var.s, '?ix'))
+    L = cache.get(key)
+    if L is None:
+        L = eng.ctx.fresh('comp', '(Seq %s)' % sort_of(ty))
+        ax = [Eq(Len(L), Len(seq)),
+              ForAll([var], Implies(And(Le(IntV(0), var), Lt(var, Len(seq))), Eq(At(L, var), t)), patterns=[[At(L, var)]])]
+        eng.ctx.fun_axioms.setdefault(L.s, []).extend(ax)
+        cache[key] = L
+
+    class _N(object):
+        pass
+    rl = _N()
+    rl.n = Len(seq)
+    eng.last_comp = (var, rl)
+    return VSeq(L, ty)
